@@ -33,18 +33,21 @@ Theorem C06_int_kernels : forall a b, b <> 0 ->
 Proof. intros a b Hb. split; [exact (idiv_patch_quot a b false false Hb)|exact (mod_int_kernel_rem a b Hb)]. Qed.
 Print Assumptions C06_int_kernels.
 
-(* division by zero: FOAR0001 for integer/decimal, +-INF / NaN by sign for float/double (incl. -0.0).
-   FULL STATEMENT: forall a b, div_zero a b = div_zero_spec a b   (value AND result type).
-   Proved: same error / same special value always; same type unless the promoted type is xs:float. *)
-Theorem C06_div_by_zero_partial : forall a b,
-  res_cls (div_zero a b) = res_cls (div_zero_spec a b) /\ res_err (div_zero a b) = res_err (div_zero_spec a b) /\
-  (promote (nk a) (nk b) <> KFlt -> div_zero a b = div_zero_spec a b).
+(* division by zero: FOAR0001 for integer/decimal, +-INF / NaN by sign for float/double (incl. -0.0), in the promoted
+   type (value AND result type) *)
+Theorem C06_div_by_zero : forall a b, div_zero a b = div_zero_spec a b.
 Proof. exact div_zero_eq_spec. Qed.
-Print Assumptions C06_div_by_zero_partial.
-(* the code returns a plain Python float (xs:double) where F&O prescribes xs:float: known finding *)
-Theorem C06_div_by_zero_type_refuted : exists a b, div_zero a b <> div_zero_spec a b.
+Print Assumptions C06_div_by_zero.
+(* before the repair the code returned a plain Python float (xs:double) where F&O prescribes xs:float: same error /
+   same special value always, same type unless the promoted type is xs:float *)
+Theorem C06_div_by_zero_old_partial : forall a b,
+  res_cls (div_zero_old a b) = res_cls (div_zero_spec a b) /\ res_err (div_zero_old a b) = res_err (div_zero_spec a b) /\
+  (promote (nk a) (nk b) <> KFlt -> div_zero_old a b = div_zero_spec a b).
+Proof. exact div_zero_old_eq_spec. Qed.
+Print Assumptions C06_div_by_zero_old_partial.
+Theorem C06_div_by_zero_old_type_refuted : exists a b, div_zero_old a b <> div_zero_spec a b.
 Proof. exists (mk KFlt Fin 1 0), (mk KFlt Fin 0 0). vm_compute. discriminate. Qed.
-Print Assumptions C06_div_by_zero_type_refuted.
+Print Assumptions C06_div_by_zero_old_type_refuted.
 
 (* fn:round(x) = floor(x + 1/2) for every rational m/d *)
 Theorem C06_round : forall m d, 0 < d -> round_md m d = round_spec m d.
@@ -67,12 +70,11 @@ Example C06_nonvacuous :
   round_md (-25) 10 = -2 /\ round_md 25 10 = 3 /\ round_half_even_md 25 10 = 2.
 Proof. vm_compute. repeat split; reflexivity. Qed.
 
-(* mod and idiv on NaN / INF / -0.0 operands and zero divisors (XPath 2.0+): the F&O special-value rules.
-   For mod the result kind of a NaN result is the plain Python float (xs:double) - the type is compared by the
-   correspondence, the class / error / finite value here. *)
+(* mod and idiv on NaN / INF / -0.0 operands and zero divisors (XPath 2.0+): the F&O special-value rules: class, error,
+   finite value and result type (the promoted type, xs:float NaN included) *)
 Theorem C06_mod_special_values : forall a b, wf_num a = true -> wf_num b = true -> special_pair a b = true ->
   res_cls (mod_ false a b) = res_cls (mod_special_spec a b) /\ res_err (mod_ false a b) = res_err (mod_special_spec a b) /\
-  res_val (mod_ false a b) = res_val (mod_special_spec a b).
+  res_val (mod_ false a b) = res_val (mod_special_spec a b) /\ res_kind (mod_ false a b) = res_kind (mod_special_spec a b).
 Proof. exact mod_special_eq_spec. Qed.
 Print Assumptions C06_mod_special_values.
 Theorem C06_idiv_special_values : forall a b, wf_num a = true -> wf_num b = true -> special_pair a b = true ->
